@@ -1,6 +1,7 @@
 package main
 
 import (
+	"go/token"
 	"fmt"
 	"go/ast"
 	"go/types"
@@ -14,8 +15,21 @@ const maxInlineDepth = 8
 
 func (c *FnCtx) call(fr *Frame, st *State, cc *ssa.CallCommon, site ssa.Instruction, deferred bool) SV {
 	var args []SV
-	for _, a := range cc.Args {
-		args = append(args, c.val(fr, st, a))
+	for i, a := range cc.Args {
+		v := c.val(fr, st, a)
+		args = append(args, v)
+		// a package-level regular expression compiled once from a constant pattern (never
+		// reassigned): whatever happened to the heap model since entry, it still is that one
+		if u, ok := a.(*ssa.UnOp); ok && u.Op == token.MUL {
+			if g, ok := u.X.(*ssa.Global); ok {
+				if f, ok := c.eng.regexGlobals[g]; ok {
+					if sv, ok := v.(Sc); ok {
+						c.assertRegexFacts(sv.T, f)
+					}
+				}
+			}
+		}
+		_ = i
 	}
 	var fnv SV
 	if _, isB := cc.Value.(*ssa.Builtin); !isB {
